@@ -253,12 +253,24 @@ def tune_malloc():
         pass
 
 
-def _lex_once(text):
+class _FirstLexError(Exception):
+    pass
+
+
+def _lex_once(text, stop_at_error=False):
+    """stop_at_error: end the run at the first lexer error, which is what
+    parse() does (its error callback raises)."""
     from pycparser.c_lexer import CLexer
 
     errs = []
+
+    def on_error(msg, line, col):
+        errs.append(msg)
+        if stop_at_error:
+            raise _FirstLexError()
+
     lx = CLexer(
-        error_func=lambda msg, line, col: errs.append(msg),
+        error_func=on_error,
         on_lbrace_func=lambda: None,
         on_rbrace_func=lambda: None,
         type_lookup_func=lambda name: False,
@@ -267,8 +279,11 @@ def _lex_once(text):
     ntok = 0
     t0 = time.perf_counter()
     c0 = time.process_time()
-    while lx.token() is not None:
-        ntok += 1
+    try:
+        while lx.token() is not None:
+            ntok += 1
+    except _FirstLexError:
+        pass
     # time waiting for a CPU on a loaded machine is not the lexer's work: take
     # the process CPU time when that is less than the wall time
     dt = min(time.perf_counter() - t0, time.process_time() - c0)
@@ -279,7 +294,7 @@ def _alarm(signum, frame):
     raise LexTimeout()
 
 
-def lex_time(text, repeat=5, warm_limit=120.0, run_limit=20.0):
+def lex_time(text, repeat=5, warm_limit=120.0, run_limit=20.0, stop_at_error=False):
     """Stand-alone lexer over `text` with a non-raising error callback: one
     untimed warm-up run, then the best time of `repeat` runs.
     -> (seconds, tokens, errors) or ('timeout', phase, limit).  The only place
@@ -291,7 +306,7 @@ def lex_time(text, repeat=5, warm_limit=120.0, run_limit=20.0):
     try:
         try:
             signal.setitimer(signal.ITIMER_REAL, warm_limit)
-            _lex_once(text)
+            _lex_once(text, stop_at_error)
         except LexTimeout:
             return ("timeout", "warm-up", warm_limit)
         finally:
@@ -301,7 +316,7 @@ def lex_time(text, repeat=5, warm_limit=120.0, run_limit=20.0):
         for _ in range(repeat):
             try:
                 signal.setitimer(signal.ITIMER_REAL, run_limit)
-                dt, ntok, nerr = _lex_once(text)
+                dt, ntok, nerr = _lex_once(text, stop_at_error)
             except LexTimeout:
                 return ("timeout", "timed run", run_limit)
             finally:
@@ -760,29 +775,40 @@ ESCAPE_SHAPES = {
 }
 ESCAPE_SMALL = (8, 12, 16, 20, 24, 28)
 ESCAPE_MEDIUM = (64, 256, 1024)
+# large members are given by text length; they are lexed up to the first error,
+# as parse() would (continuing after every error makes e.g. ' \' \' \' ... '
+# quadratic: each of the n error tokens first scans the rest of the input for
+# a closing quote - not something parse() can be made to do)
+ESCAPE_LARGE_CHARS = (4096, 16384)
 
 
 def escape_text(kinds, quote, prefix, shape, n):
     """prefix + quote + (unit of each kind in turn) * n + shape's tail."""
     lead, tail = ESCAPE_SHAPES[shape]
     unit = "".join(ESCAPE_KINDS[k] for k in kinds)
+    if n < 0:
+        n = -n // len(unit)
     return prefix + quote + lead + unit * n + tail.replace("Q", quote)
 
 
 def escape_families(tier):
-    """-> list of (kinds tuple, quote, prefix, shape, sizes).  Single kinds:
-    everything.  Mixed alternations of two kinds (unordered): quick = no
+    """-> list of (kinds tuple, quote, prefix, shape, sizes).  Sizes are
+    repetition counts; a negative size -L stands for 'as many repetitions as
+    fit in L characters' (large ladder, single kinds only; quick: prefixes ''
+    and L).  Single kinds: everything.  Mixed alternations of two kinds (unordered): quick = no
     prefix, three shapes, small sizes; thorough = prefixes '' and L, all
     shapes, small and medium sizes."""
     out = []
+    quick = tier == "quick"
     sizes = ESCAPE_SMALL + ESCAPE_MEDIUM
+    large = tuple(-c for c in ESCAPE_LARGE_CHARS)
     names = list(ESCAPE_KINDS)
     for k in names:
         for q in ("'", '"'):
             for pre in ESCAPE_PREFIXES:
                 for sh in ESCAPE_SHAPES:
-                    out.append(((k,), q, pre, sh, sizes))
-    quick = tier == "quick"
+                    big = large if (not quick or pre in ("", "L")) else ()
+                    out.append(((k,), q, pre, sh, sizes + big))
     mixed_pre = ("",) if quick else ("", "L")
     mixed_sh = (("terminated", "unterminated_eof", "bad_escape_end") if quick
                 else tuple(ESCAPE_SHAPES))
@@ -796,7 +822,7 @@ def escape_families(tier):
     return out
 
 
-def lex_time_small(text, repeat=3, limit=10.0):
+def lex_time_small(text, repeat=3, limit=4.0):
     """Like lex_time for inputs of a few hundred characters: the warm-up run is
     timed too (no memory effects at this size) and the watchdog is short.
     -> (seconds, tokens, errors) | ('timeout', 'run', limit)."""
